@@ -34,7 +34,8 @@ BLOCK_VENDORS = ["huawei", "h3c", "optixtrans", "cisco", "nexus", "iosxr", "aris
 FLAT_VENDORS = ["juniper", "ribbon", "nokia"]
 
 ALPHABET = {
-    "huawei": ["a", "b 1", "undo c", "xpl route-filter f", "if x then", "else", "rsa peer-public-key k"],
+    # (h3c shares HuaweiFormatter: the no-exit prefix 'rsa peer-public-key' is exercised there, the XPL rows here)
+    "huawei": ["a", "b 1", "undo c", "xpl route-filter f", "if x then", "if y then", "else"],
     "h3c": ["a", "b 1", "undo c", "rsa peer-public-key k"],
     "optixtrans": ["a", "b 1", "undo c"],
     "cisco": ["a", "b 1", "no c", "address-family ipv4"],
